@@ -48,21 +48,25 @@ fn raw_object_keys(types_ts: &str, name: &str, zod: bool) -> Option<Vec<String>>
 /// (key as printed, value text) of every entry of the interface / z.object literal
 fn object_entries(types_ts: &str, name: &str, zod: bool) -> Option<Vec<(String, String)>> {
     let head = if zod { format!("export const {}Schema = z.object({{", name) } else { format!("export interface {} {{", name) };
+    let cleaned = without_comments(types_ts);
+    let types_ts = cleaned.as_str();
     let start = types_ts.find(&head)? + head.len();
     let rest = &types_ts[start..];
     let mut depth = 0i32;
     let mut end = rest.len();
     let mut q: Option<char> = None;
+    let mut esc = false;
     for (i, ch) in rest.char_indices() {
-        if let Some(x) = q { if ch == x { q = None; } continue; }
+        if let Some(x) = q { if esc { esc = false; } else if ch == '\\' { esc = true; } else if ch == x { q = None; } continue; }
         match ch { '"' | '\'' => q = Some(ch), '{' | '(' | '[' => depth += 1, '}' | ')' | ']' => { if depth == 0 { end = i; break; } depth -= 1; } _ => {} }
     }
     // entries are separated by `,` `;` or a line break at nesting depth 0
     let mut entries: Vec<String> = vec![String::new()];
     let mut d = 0i32;
     let mut in_str: Option<char> = None;
+    let mut esc2 = false;
     for ch in rest[..end].chars() {
-        if let Some(q) = in_str { if ch == q { in_str = None; } entries.last_mut().unwrap().push(ch); continue; }
+        if let Some(q) = in_str { if esc2 { esc2 = false; } else if ch == '\\' { esc2 = true; } else if ch == q { in_str = None; } entries.last_mut().unwrap().push(ch); continue; }
         match ch {
             '"' | '\'' => { in_str = Some(ch); entries.last_mut().unwrap().push(ch); }
             '(' | '[' | '{' | '<' => { d += 1; entries.last_mut().unwrap().push(ch); }
@@ -934,7 +938,8 @@ fn main() {
                 let res = generate(&dir, &out, mode).map(|fs| {
                     fs.into_iter().filter(|(k, _)| k.ends_with(".ts")).map(|(k, v)| {
                         // declaration blocks, order-insensitive: split at blank lines, drop the header comment
-                        let mut blocks: Vec<String> = v.split("\n\n").map(|b| b.trim().to_string()).filter(|b| !b.is_empty() && !b.contains("Generated at:")).collect();
+                        // comments are dropped first: a section comment stands above whichever declaration happens to come first
+                        let mut blocks: Vec<String> = without_comments(&v).split("\n\n").map(|b| b.lines().filter(|l| !l.trim().is_empty()).collect::<Vec<_>>().join("\n").trim().to_string()).filter(|b| !b.is_empty()).collect();
                         blocks.sort();
                         (k, blocks)
                     }).collect::<BTreeMap<_, _>>()
@@ -1444,7 +1449,7 @@ fn main() {
         for mode in ["none", "zod"] {
             rep.case("regeneration_into_used_directory_equals_fresh_generation", &format!("shared -> shared_small mode={}", mode), &|| {
                 let used = root.join(format!("shared/out_{}", mode));
-                let strip = |m: BTreeMap<String, String>| -> BTreeMap<String, String> { m.into_iter().filter(|(k, _)| k.ends_with(".ts")).map(|(k, v)| (k, v.lines().filter(|l| !l.contains("Generated at:")).collect::<Vec<_>>().join("\n"))).collect() };
+                let strip = |m: BTreeMap<String, String>| -> BTreeMap<String, String> { m.into_iter().filter(|(k, _)| k.ends_with(".ts")).map(|(k, v)| (k, v.lines().filter(|l| !has_timestamp(l)).collect::<Vec<_>>().join("\n"))).collect() };
                 // second run into the used directory (generate() would wipe it first: call the library directly)
                 let mut cfg = GenerateConfig::default();
                 cfg.project_path = dir2.to_string_lossy().to_string();
